@@ -7,6 +7,7 @@ import torch
 import torch.nn as nn
 import torch.optim as optim
 from gymnasium import spaces
+from tensordict import TensorDictBase
 
 from agilerl.algorithms.core import RLAlgorithm
 from agilerl.algorithms.core.registry import HyperparameterConfig, NetworkGroup
@@ -411,6 +412,16 @@ class TD3(RLAlgorithm):
         :param policy_noise: Standard deviation of noise applied to policy, defaults to 0.2
         :type policy_noise: float, optional
         """
+        # NOTE: Replay buffers return a TensorDict, a tuple of tensors is also supported
+        if isinstance(experiences, (TensorDictBase, dict)):
+            experiences = (
+                experiences["obs"],
+                experiences["action"],
+                experiences["reward"],
+                experiences["next_obs"],
+                experiences["done"],
+            )
+
         states, actions, rewards, next_states, dones = experiences
 
         actions = actions.to(self.device)
